@@ -15,6 +15,7 @@ import (
 	"pgregory.net/rapid"
 
 	"verif/internal/ev"
+	"verif/internal/gen"
 	"verif/internal/model"
 )
 
@@ -460,6 +461,9 @@ func FuzzParse(f *testing.F) {
 	f.Add([]byte{0, 4, 0, '=', 0, ';'})
 	f.Add([]byte{0, 9, 1, 'a', '=', 1, 'b', ';', 'X', 'Y', 'Z'})
 	f.Add([]byte{0, 12, 1, 'a', '=', 1, 'b', ';', 1, 'a', '=', 1, 'c', ';'})
+	for _, in := range gen.FixedInputs("data.ReadMapping") {
+		f.Add(in.Bytes())
+	}
 	propParse.Fuzz(f, func(b []byte) (ParseCase, bool) {
 		if len(b) > 70000 {
 			return ParseCase{}, false
